@@ -442,6 +442,12 @@ pub fn run(rep: &mut Report, thorough: bool) {
             env.push((format!("VERIF_ENV_{k}").into_bytes(), val));
         }
         b.opts.args = args.clone();
+        // one target in four is started with an empty environment (`env -i`): its environ file has
+        // length 0 and the stream is a copy of it all the same
+        if fake_truth.brk % 4 == 1 {
+            env.clear();
+            rep.count("targets_with_an_empty_environment", 1);
+        }
         b.opts.env = Some(env.clone());
         let t = match Target::spawn(b.spec.clone(), &b.opts) {
             Ok(t) => t,
